@@ -438,7 +438,9 @@ func genC16(r *rngT, n int, tier string) {
 				case 1:
 					kind = "O"
 				}
-				as = append(as, fmt.Sprintf("%d.%d.%s", 1+r.Intn(3), 1+r.Intn(2), kind))
+				// system 9 is the node's own OutSystemID (another component of the same system, or a misconfigured peer): the
+				// rule is per (channel, system, component) and knows no exception
+				as = append(as, fmt.Sprintf("%d.%d.%s", []int{1, 2, 3, 9}[r.Intn(4)], 1+r.Intn(2), kind))
 			}
 			hs = append(hs, dash(strings.Join(as, ",")))
 		}
